@@ -11,6 +11,8 @@ import (
 	"flag"
 	"fmt"
 	"os"
+	"runtime"
+	"runtime/pprof"
 	"strings"
 
 	"verifharness/hx"
@@ -69,6 +71,14 @@ func main() {
 		f.Close()
 	} else {
 		p.Gen(r)
+	}
+	if hp := os.Getenv("VERIF_HEAPPROF"); hp != "" {
+		// where the harness itself keeps memory (long runs): go tool pprof -top <binary> <file>
+		if f, err := os.Create(hp); err == nil {
+			runtime.GC()
+			pprof.WriteHeapProfile(f)
+			f.Close()
+		}
 	}
 	if err := r.Close(*out); err != nil {
 		fmt.Fprintln(os.Stderr, err)
